@@ -16,6 +16,7 @@ class Plan:
         self.assumptions = []
         self.rule_extra = ''
         self.env = {}             # extra environment for the driver (oracle switches)
+        self.ticker = False       # replay the state graph of Ticker.tla on the real timeoutTicker
         self.live_runs = []       # [(Cfg, heights, runs)] real-goroutine executions recorded and validated by TLC
 
 
@@ -107,11 +108,39 @@ def run_live(ctx, plan):
         ctx.cov['live_events'] = events
 
 
+def run_ticker(ctx):
+    import os
+    from .. import tlc
+    engine.build_go(ctx, ['ticker'])
+    r = engine.tlc_check(ctx, tm.SPEC, 'Ticker.tla', 'MC_Ticker.cfg', name='Ticker', dump=True, workers=2, timeout=300)
+    if r.violation or not r.scratch:
+        ctx.inconclusive.append('Ticker.tla: %s' % (r.violation or r.error))
+        tlc.cleanup(r)
+        return
+    g = tlc.parse_dot(os.path.join(r.scratch, 'graph.dot'), drop_vars=('res',))
+    tlc.cleanup(r)
+    # Fire can only be replayed after a Schedule that was accepted in the step just before it
+    paths, cov, want = tlc.edge_cover_paths(g, ctx.rng, max_len=6)
+    traces = []
+    for k, p in enumerate(paths):
+        t = tlc.path_to_steps(g, p)
+        t['id'] = 'ticker-%d' % k
+        traces.append(t)
+    rep = engine.run_driver(ctx, 'ticker', traces, timeout=900)
+    engine.collect(ctx, rep, traces, 'ticker')
+    ctx.cov['ticker_paths'] = rep['traces']
+    ctx.cov['ticker_checks'] = rep['checks']
+    ctx.cov['ticker_counters'] = rep.get('counters', {})
+
+
 def run_family(ctx, plan, replay=None):
     engine.build_go(ctx, ['csim'])
     if replay is not None:
-        rep = engine.run_driver(ctx, 'csim', [replay['trace']], timeout=900, env=plan.env)
-        engine.collect(ctx, rep, [replay['trace']], 'csim')
+        drv = replay.get('engine') or 'csim'
+        if drv == 'ticker':
+            engine.build_go(ctx, ['ticker'])
+        rep = engine.run_driver(ctx, drv, [replay['trace']], timeout=900, env=plan.env)
+        engine.collect(ctx, rep, [replay['trace']], drv)
         ctx.cov['traces_validated_against_impl'] = 1
         ctx.cov['states'] = ctx.cov['transitions'] = max(1, len(replay['trace']['steps']))
         ctx.sample({'replayed': len(replay['trace']['steps'])})
@@ -150,6 +179,8 @@ def run_family(ctx, plan, replay=None):
         ctx.log('simulated %s: %d behaviours' % (cfg.name, len(ts)))
         traces += ts
     run_live(ctx, plan)
+    if plan.ticker:
+        run_ticker(ctx)
     # binding self-test: corrupt one expected field
     probe = None
     for t in traces:
